@@ -660,15 +660,19 @@ def run_case(case, dec):
             sim.api_ended = False
             sim.active = True
             outcome = "returned"
+            held = None   # a caller may well keep the exception (and with it
+            #               the traceback and every frame) while it cleans up
             try:
                 call()
-            except models.INJECTED:
+            except models.INJECTED as e:
                 outcome = "raised:InjectedFault"
+                held = e
             except simsched.Deadlock:
                 outcome = "deadlock"
             except HarnessError:
                 raise
             except Exception as e:  # noqa: BLE001 - classified below
+                held = e
                 outcome = "raised:" + type(e).__name__
                 if plan.fired or (case.get("fault") or {}).get("kind") in (
                         "cap", "shape", "pt_short", "pt_raises", "gate_task",
@@ -687,6 +691,7 @@ def run_case(case, dec):
                 sim.probe("W5_callback_in_flight_at_api_end")
             sim.api_ended = True
             violations += _quiescence_oracle(sim, env, case, ci)
+            del held
             if violations:
                 break
     finally:
@@ -727,6 +732,11 @@ def _quiescence_oracle(sim, env, case, ci):
     v = []
     sig_base = "%s/%s/%s" % (case["api"], case["progress"],
                              (case.get("fault") or {}).get("kind"))
+    if sim.deadlock:
+        v.append({"class": "deadlock", "signature": sig_base,
+                  "detail": "the call dead-locked against its own timer "
+                            "callback (it would never return)"})
+        return v
     stuck = sim.drain()
     if sim.deadlock or stuck:
         v.append({"class": "deadlock", "signature": sig_base,
